@@ -497,11 +497,15 @@ type XEvent struct {
 	Task string        `json:"t,omitempty"`
 	D    time.Duration `json:"d,omitempty"`
 	Def  int           `json:"def,omitempty"`
+	Var  int           `json:"v,omitempty"` // S: the request carries the job variable n=<Var> (0: no variables)
 }
 
 func (e XEvent) String() string {
 	switch e.Kind {
 	case "S", "Sbad":
+		if e.Var != 0 {
+			return fmt.Sprintf("%s(%s,n=%d)", e.Kind, e.P, e.Var)
+		}
 		return e.Kind + "(" + e.P + ")"
 	case "C":
 		return fmt.Sprintf("C(%d)", e.Job)
@@ -519,7 +523,11 @@ func (e XEvent) String() string {
 func (w *World) ApplyX(e XEvent) bool {
 	switch e.Kind {
 	case "S", "Sbad":
-		w.SpawnDriver(Op{Kind: e.Kind, Pipeline: e.P})
+		op := Op{Kind: e.Kind, Pipeline: e.P}
+		if e.Var != 0 {
+			op.Vars = map[string]interface{}{"n": e.Var}
+		}
+		w.SpawnDriver(op)
 	case "C":
 		w.SpawnDriver(Op{Kind: "C", Job: e.Job})
 	case "R":
